@@ -208,15 +208,14 @@ Section Voucher.
     pose proof (W3 d p GP) as L. rewrite D in L. destruct L as [L|[]]. exact L.
   Qed.
 
-  Lemma inv_v_msg s m s' c :
-    deliver xcall xcontract MODULE s m = (s', c) -> signer (OMsg m) <> Some MODULE -> InvV s -> InvV s'.
+  Lemma inv_v_handle s m s' :
+    handle xcall xcontract MODULE s m = Ok s' -> signer (OMsg m) <> Some MODULE -> InvV s -> InvV s'.
   Proof.
-    intros H NS [[W U] B]. destruct c as [|c'].
-    2:{ apply deliver_failure_changes_nothing in H; [subst; exact (conj (conj W U) B) | discriminate]. }
-    pose proof (deliver_ok_gates _ _ _ _ _ _ _ H) as (_ & _ & p & PR & _ & _ & _ & GP).
-    destruct m as [m|m].
+    intros H NS [[W U] B].
+    pose proof (handle_ok_gates _ _ _ _ _ _ _ H) as (_ & p & PR & _ & _ & _ & GP).
+    destruct m as [m|m]; cbn [handle] in H.
     - (* MsgConvertCoin *)
-      pose proof (convert_coin_exact _ _ _ _ _ _ _ _ H PR) as E. cbv zeta in E.
+      pose proof (convert_coin_ok_exact _ _ _ _ _ _ _ _ H PR) as E. cbv zeta in E.
       destruct (is_contract xcontract s (p_erc20 p)) eqn:C;
         [|subst s'; apply (invv_delete_pair s (cc_denom m)); [exact (conj (conj W U) B) | exact GP]].
       destruct E as (OW & P & L & BS & SS & (G1 & G2 & G3 & G4 & G5 & G6 & G7 & G8) & A & res & TE & _).
@@ -243,7 +242,7 @@ Section Voucher.
           -- destruct (Z.eqb_spec (p_erc20 q) (p_erc20 p)) as [EQ|_]; [|lia].
              exfalso. apply NV. eapply same_contract_same_voucher; [exact (conj W U) | exact GP | exact I | exact D | exact EQ].
     - (* MsgConvertERC20 *)
-      pose proof (convert_erc20_exact _ _ _ _ _ _ _ _ H PR) as E. cbv zeta in E. cbn [signer] in NS.
+      pose proof (convert_erc20_ok_exact _ _ _ _ _ _ _ _ H PR) as E. cbv zeta in E. cbn [signer] in NS.
       assert (NM : hex_to_addr (ce_sender m) <> MODULE) by congruence.
       destruct (is_contract xcontract s (p_erc20 p)) eqn:C;
         [|subst s'; apply (invv_delete_pair s (ce_denom m)); [exact (conj (conj W U) B) | exact GP]].
@@ -273,6 +272,97 @@ Section Voucher.
           rewrite find_mtok_tokens in F.
           pose proof (token_effect_escrowed _ _ _ _ _ _ F TE) as EQ.
           change (snd (s_tokens s)) with (s_ext s) in EQ. change (snd (s_tokens s')) with (s_ext s') in EQ. lia.
+  Qed.
+
+  Lemma inv_v_msg s m s' c :
+    deliver xcall xcontract MODULE s m = (s', c) -> signer (OMsg m) <> Some MODULE -> InvV s -> InvV s'.
+  Proof.
+    intros H NS I. apply deliver_inv in H as [(_ & _ & H)|(_ & ->)]; [|exact I].
+    eapply inv_v_handle; eassumption.
+  Qed.
+
+  Lemma inv_v_hook s r d a s' c :
+    hook_recv xcall xcontract MODULE s r d a = (s', c) -> r <> MODULE -> InvV s -> InvV s'.
+  Proof.
+    intros H NM I. apply hook_recv_inv in H as [(_ & _ & _ & _ & H)|(_ & ->)]; [|exact I].
+    apply (inv_v_handle s (MCC (hook_msg r d a)) s'); [exact H | | exact I].
+    cbn [signer hook_msg cc_sender]. congruence.
+  Qed.
+
+  (** ** Names of the vouchers.  RegisterERC20 names the voucher of an external contract "aggregate/<address>"
+      (types.CreateDenom); coins of such a denomination are minted by x/aggregate only, so the coins other modules
+      create ([OEnvMint]) are of other denominations. *)
+  Definition VNamed s : Prop :=
+    forall id p v, In (id, p) (s_pairs s) -> p_owner p = 2 -> p_denoms p = [v] -> is_prefix aggregate_prefix v = true.
+
+  Definition no_voucher_mint (o : op) : Prop :=
+    match o with OEnvMint _ d _ => is_prefix aggregate_prefix d = false | _ => True end.
+
+  Lemma vnamed_sub s s' :
+    (forall id p, In (id, p) (s_pairs s') ->
+       exists p0, In (id, p0) (s_pairs s) /\ p_owner p0 = p_owner p /\ p_denoms p0 = p_denoms p) ->
+    VNamed s -> VNamed s'.
+  Proof. intros S V id p v I O D. destruct (S id p I) as (p0 & I0 & O0 & D0). apply (V id p0 v I0); congruence. Qed.
+
+  Lemma handle_pairs s m s' :
+    handle xcall xcontract MODULE s m = Ok s' ->
+    s_pairs s' = s_pairs s \/ exists p, s_pairs s' = adel bytes_eqb (s_pairs s) (p_id p).
+  Proof.
+    intro H. pose proof (handle_ok_gates _ _ _ _ _ _ _ H) as (_ & p & PR & _).
+    destruct m as [m|m]; cbn [handle] in H.
+    - pose proof (convert_coin_ok_exact _ _ _ _ _ _ _ _ H PR) as E. cbv zeta in E.
+      destruct (is_contract xcontract s (p_erc20 p)); [|subst s'; right; exists p; reflexivity].
+      destruct E as (_ & _ & _ & _ & _ & (_ & _ & G3 & _) & _). left. exact G3.
+    - pose proof (convert_erc20_ok_exact _ _ _ _ _ _ _ _ H PR) as E. cbv zeta in E.
+      destruct (is_contract xcontract s (p_erc20 p)); [|subst s'; right; exists p; reflexivity].
+      destruct E as (_ & _ & _ & _ & _ & (_ & _ & G3 & _) & _). left. exact G3.
+  Qed.
+
+  Lemma vnamed_pairs s s' :
+    s_pairs s' = s_pairs s \/ (exists p, s_pairs s' = adel bytes_eqb (s_pairs s) (p_id p)) -> VNamed s -> VNamed s'.
+  Proof.
+    intros [E|(p & E)]; apply vnamed_sub; intros id q I; rewrite E in I.
+    - exists q. repeat split; assumption.
+    - apply (adel_In bytes_eqb bytes_eqb_eq) in I as [I _]. exists q. repeat split; assumption.
+  Qed.
+
+  Lemma vnamed_step s o : VNamed s -> VNamed (step s o).
+  Proof.
+    destruct o as [m|c caller cl|f t d a|id|p e sd sl|r d a|t d a]; cbn [Convert.step].
+    - destruct (deliver xcall xcontract MODULE s m) as [s' k] eqn:D. cbn [fst].
+      apply deliver_inv in D as [(_ & _ & H)|(_ & ->)]; [|auto]. apply vnamed_pairs. eapply handle_pairs; eassumption.
+    - unfold token_call. destruct (evm_call xcall MODULE s c caller cl) as [s1 r] eqn:E.
+      destruct (cr_ok r); cbn [fst]; [|auto].
+      apply evm_call_inv in E as [(_ & _ & _ & tk' & _ & ->)|[_ ->]]; [|auto]. apply vnamed_pairs. left. reflexivity.
+    - unfold bank_send. destruct (zmem t (s_blocked s)); [auto|].
+      destruct (send_coins s f t d a) as [s1| |] eqn:S; cbn [fst]; auto.
+      apply send_coins_inv in S as (_ & _ & _ & ->).
+      destruct (sent_proj X s f t d a) as (_ & _ & Q3 & _). apply vnamed_pairs. left. exact Q3.
+    - destruct (get_pair s id) as [p0|]; [|auto]. apply vnamed_sub. cbn [s_pairs set_registry]. intros i q I.
+      apply (aupd_In bytes_eqb bytes_eqb_eq) in I as (v0 & I & [->|[_ ->]]); exists v0; repeat split; assumption.
+    - apply vnamed_pairs. left. reflexivity.
+    - destruct (hook_recv xcall xcontract MODULE s r d a) as [s' k] eqn:D. cbn [fst].
+      apply hook_recv_inv in D as [(_ & _ & _ & _ & H)|(_ & ->)]; [|auto].
+      apply vnamed_pairs. apply (handle_pairs s (MCC (hook_msg r d a))). exact H.
+    - destruct (env_mint s t d a) as [s' k] eqn:D. cbn [fst].
+      apply env_mint_inv in D as [(_ & _ & _ & ->)|(_ & ->)]; [|auto].
+      apply vnamed_pairs. left.
+      match goal with |- s_pairs (ensure_acct ?s0 t) = _ => destruct (ensure_acct_proj X s0 t) as (_ & _ & -> & _) end.
+      reflexivity.
+  Qed.
+
+  (** coins of a non-voucher denomination created by another module *)
+  Lemma inv_v_env_mint s t d a s' k :
+    env_mint s t d a = (s', k) -> is_prefix aggregate_prefix d = false -> VNamed s -> InvV s -> InvV s'.
+  Proof.
+    intros H NV VN [[W U] B]. apply env_mint_inv in H as [(_ & _ & _ & ->)|(_ & ->)]; [|exact (conj (conj W U) B)].
+    match goal with |- InvV (ensure_acct ?s0 t) =>
+      destruct (ensure_acct_proj X s0 t) as (_ & _ & Q3 & _ & Q5 & _ & Q7 & _ & _ & _ & Q11 & Q12) end.
+    cbn [s_pairs s_denom s_supply s_mtok s_ext set_supply set_bank] in Q3, Q5, Q7, Q11, Q12.
+    split; [split; [unfold WF; rewrite Q3, Q5; exact W | rewrite Q3; exact U]|].
+    intros id q v I OW D F. rewrite Q3 in I. unfold find_mtok in F. rewrite Q11 in F. rewrite Q7, Q12.
+    rewrite sget_sset. destruct (bytes_eqb_spec d v) as [->|_]; [|exact (B id q v I OW D F)].
+    rewrite (VN id q v I OW D) in NV. discriminate.
   Qed.
 
   Lemma inv_v_token_call s c caller cl s' k :
@@ -319,9 +409,9 @@ Section Voucher.
   Qed.
 
   (** ** The invariant over all histories *)
-  Theorem inv_v_step s o : not_module_signed MODULE o -> InvV s -> InvV (step s o).
+  Theorem inv_v_step s o : not_module_signed MODULE o -> no_voucher_mint o -> VNamed s -> InvV s -> InvV (step s o).
   Proof.
-    intros NS I. destruct o as [m|c caller cl|f t d a|id|p e sd sl].
+    intros NS NV VN I. destruct o as [m|c caller cl|f t d a|id|p e sd sl|r d a|t d a].
     - cbn [Convert.step]. destruct (deliver xcall xcontract MODULE s m) as [s' k] eqn:D. cbn [fst].
       eapply inv_v_msg; eassumption.
     - cbn [Convert.step]. destruct (token_call xcall MODULE s c caller cl) as [s' k] eqn:D. cbn [fst].
@@ -330,13 +420,20 @@ Section Voucher.
       eapply inv_v_bank_send; eassumption.
     - apply inv_v_toggle; exact I.
     - destruct I as [[W U] B]. split; [split; [exact W | exact U]|]. intros id q v IN OW D F. exact (B id q v IN OW D F).
+    - cbn [Convert.step]. destruct (hook_recv xcall xcontract MODULE s r d a) as [s' k] eqn:D. cbn [fst].
+      eapply inv_v_hook; [exact D| |exact I]. intro; subst. apply NS. reflexivity.
+    - cbn [Convert.step]. destruct (env_mint s t d a) as [s' k] eqn:D. cbn [fst].
+      eapply inv_v_env_mint; eassumption.
   Qed.
 
-  Theorem inv_v_run l : forall s, Forall (not_module_signed MODULE) l -> InvV s -> InvV (run s l).
+  Theorem inv_v_run l : forall s, Forall (not_module_signed MODULE) l -> Forall no_voucher_mint l ->
+    VNamed s -> InvV s -> InvV (run s l) /\ VNamed (run s l).
   Proof.
-    induction l as [|o l IH]; intros s F I; [exact I|]. cbn [Convert.run fold_left].
-    inversion F; subst. apply IH; [assumption|]. apply inv_v_step; assumption.
+    induction l as [|o l IH]; intros s F NV VN I; [split; assumption|]. cbn [Convert.run fold_left].
+    inversion F; subst. inversion NV; subst. apply IH; [assumption | assumption | |].
+    - apply vnamed_step; assumption.
+    - apply inv_v_step; assumption.
   Qed.
 End Voucher.
 
-Arguments VBacked {X}. Arguments WFv {X}. Arguments InvV {X}. Arguments honest_view {X}. Arguments others_cannot_debit {X}.
+Arguments VBacked {X}. Arguments WFv {X}. Arguments InvV {X}. Arguments VNamed {X}. Arguments honest_view {X}. Arguments others_cannot_debit {X}.
